@@ -2,6 +2,6 @@
 #![feature(allocator_api)]
 #![allow(unused_imports, dead_code, unused_variables, unused_mut, non_snake_case, unused_parens, unused_braces, non_upper_case_globals, unused_assignments)]
 //@verbatim crates/transcript/src/lib.rs macro_rules ensure,assure,felt
-//@verbatim crates/air/src/consts.rs macro_rules felt_nonzero
+//@verbatim crates/air/src/consts.rs macro_rules felt_nonzero,felt_try_nonzero
 // ASSUMPTION (listed in the evidence): the verifier is compiled for a 64-bit target.
 vstd::prelude::verus! { global size_of usize == 8; }
